@@ -34,6 +34,9 @@ def rules(ctx):
     ctx.rule('R04.6', "enumerated forms relabel every label through self._mapping", floor=3)
     ctx.rule('R04.7', "to_enumerated reflection targets", floor=6)
     ctx.rule('R04.8', "export properties select terms by key length", floor=3)
+    ctx.rule('R04.9', "premise of the relabelling: the mapping is kept in step with the variable count (registration "
+                      "parity), refresh rebuilds it through the model's full constructor, convert_solution decodes "
+                      "exactly range(num_binary_variables)", floor=12)
 
     # ---------------------------------------------------------------- R04.1
     for name, (A, B) in PAIRS.items():
@@ -234,3 +237,23 @@ def rules(ctx):
         ctx.inst('R04.8', fn or (P.cls(cname).module.relpath, cname), 'property %s' % prop, ok,
                  "selects the terms by key length" if ok else
                  "%s.%s does not select exactly the terms `if %s`" % (cname, prop, want_if))
+
+    # ---------------------------------------------------------------- R04.9
+    from .C14 import registration_parity, refresh_order
+    registration_parity(ctx, 'R04.9')
+    refresh_order(ctx, 'R04.9')
+    for cname_ in ('QUBO', 'QUSO'):
+        f_ = P.func('%s.convert_solution' % cname_)
+        sn = R.self_name(f_)
+        sol = f_.params[1]
+        for r in [x for x in walk_no_nested(strip_docstring(f_.node.body)) if isinstance(x, ast.Return)]:
+            v = r.value
+            ok = False
+            if isinstance(v, ast.DictComp) and len(v.generators) == 1 and not v.generators[0].ifs:
+                gen = v.generators[0]
+                i = src(gen.target)
+                ok = src(gen.iter) in ('range(%s.num_binary_variables)' % sn, 'range(%s._num_binary_variables)' % sn,
+                                       'range(len(%s._reverse_mapping))' % sn) and \
+                    src(v.key) == '%s._reverse_mapping[%s]' % (sn, i) and src(v.value) == '%s[%s]' % (sol, i)
+            ctx.inst('R04.9', f_, r, ok, "solution decoded label by label through the reverse mapping" if ok else
+                     "convert_solution does not undo the relabelling as {reverse_mapping[i]: solution[i] for i < n}")
